@@ -240,14 +240,14 @@ func runC04(w *World, r *Report) {
 	r.Rule("dispatch", "type codes allocate the kind the specification table names", 60)
 	r.Rule("rlayout", "every specified field is read from its specified offset, width and byte order into the mapped Go field", 250)
 	r.Rule("prealloc", "decoders that rely on preallocated receiver slices only ever get receivers built by the constructor", 5)
-	r.Rule("retain", "elements decoded in list loops are stored into the receiver", 8)
-	r.Rule("window", "a bounded window handed to a child decoder is exactly the element's declared length", 10)
-	r.Rule("exhaust", "list-decoding loops run while any element can remain", 10)
+	r.Rule("retain", "elements decoded in list loops are stored into the receiver", 5)
+	r.Rule("window", "a bounded window handed to a child decoder is exactly the element's declared length", 6)
+	r.Rule("exhaust", "list-decoding loops run while any element can remain", 6)
 	r.Rule("keepall", "an element consumed by a list loop is stored on every path", 0)
-	r.Rule("padstep", "branches of a list loop agree on stepping over alignment padding", 10)
-	r.Rule("liststep", "the advance over a list element is computed from that element, not from a value remembered from an earlier iteration", 10)
+	r.Rule("padstep", "branches of a list loop agree on stepping over alignment padding", 6)
+	r.Rule("liststep", "the advance over a list element is computed from that element, not from a value remembered from an earlier iteration", 6)
 	r.Rule("oxm-varlen", "variable-length OXM payloads are decoded with oxm_length (no mask) or half of it (mask)", 2)
-	r.Rule("fresh", "a value decoded into inside a list loop is new in each iteration (or fully overwritten by the child decoder)", 10)
+	r.Rule("fresh", "a value decoded into inside a list loop is new in each iteration (or fully overwritten by the child decoder)", 6)
 	codes, err := loadCodes()
 	if err != nil {
 		r.Fail(VUnmapped, "dispatch", "spec/codes.json", "", "-", err.Error())
@@ -664,6 +664,14 @@ func runC04(w *World, r *Report) {
 			padStepRule(w, r, dfi)
 			carriedStepRule(w, r, "liststep", dfi)
 		}
+	}
+	for _, hfi := range decodeHelpers(w, func(pkg string) bool { return pkg != "protocol" && pkg != "util" && pkg != "ofbase" }) {
+		freshRule(w, r, hfi)
+		windowRule(w, r, hfi)
+		exhaustRule(w, r, hfi)
+		keepAllRule(w, r, hfi)
+		padStepRule(w, r, hfi)
+		carriedStepRule(w, r, "liststep", hfi)
 	}
 }
 
